@@ -22,7 +22,6 @@ func siteFn(key string) string {
 
 // reviewed selection sites: key -> reason the selection cannot depend on the order
 var reviewedDetSites = map[string]string{
-	"DET:(*check/common.AnnotateFile).ClearCheckError:index#1": "in-place filter: the slice is compacted to the elements with AnnotateSyntaxFlag set and cut at their count; the SET kept does not depend on the order of the elements",
 	"DET:(*check/common.AnnotateFile).GetBestFragementInfo:loop1(map):first-match":         "unique match: a source line belongs to at most one comment fragment (fragments are disjoint comment blocks, LineVec lists their own lines)",
 	"DET:(*check/common.ScopeInfo).FindTableKeyReferVarName:loop1(map):first-match":       "unique match: the test is containment of the cursor position (line, column) in the key's own source range; two table keys cannot occupy the same position",
 	"DET:(*check/common.ScopeInfo).GetTableKeyVar:loop1(map):first-match":                 "unique match: position-keyed (IsHasReferTableKey compares the key's source range with the cursor position)",
